@@ -136,12 +136,22 @@ const Type* TypeChecker::unqualifiedAndResolved(const Type* ty)
 
 bool TypeChecker::isAssignableType(const Type* ty, const SyntaxNode* node)
 {
+    // A modifiable lvalue has no array type, no const-qualified type, and, if
+    // it is a structure or union, no member (recursively) with a
+    // const-qualified type (6.3.2.1-1).
     switch (ty->kind()) {
         case TypeKind::Qualified:
-            diagReporter_.CannotAssignToExpressionOfConstQualifiedType(node->lastToken());
-            return false;
-        case TypeKind::TypedefName:
-            return isAssignableType(ty->asTypedefNameType()->resolvedSynonymizedType(), node);
+            if (ty->asQualifiedType()->qualifiers().hasConst()) {
+                diagReporter_.CannotAssignToExpressionOfConstQualifiedType(node->lastToken());
+                return false;
+            }
+            return isAssignableType(ty->asQualifiedType()->unqualifiedType(), node);
+        case TypeKind::TypedefName: {
+            auto resolvedTy = ty->asTypedefNameType()->resolvedSynonymizedType();
+            if (!resolvedTy)
+                return true;
+            return isAssignableType(resolvedTy, node);
+        }
         case TypeKind::Array:
             diagReporter_.CannotAssignToExpressionOfArrayType(node->lastToken());
             return false;
@@ -149,9 +159,15 @@ bool TypeChecker::isAssignableType(const Type* ty, const SyntaxNode* node)
             auto tagTy = ty->asTagType();
             auto tagTyDecl = tagTy->declaration();
             if (!tagTyDecl)
-                return false;
+                return true;
             for (const auto& membDecl : tagTyDecl->members()) {
                 auto membTy = membDecl->type();
+                // A member of array type doesn't make the aggregate
+                // unassignable; const-qualified elements do.
+                while (membTy && membTy->kind() == TypeKind::Array)
+                    membTy = membTy->asArrayType()->elementType();
+                if (!membTy || membTy == ty)
+                    continue;
                 if (!isAssignableType(membTy, node))
                     return false;
             }
